@@ -20,7 +20,8 @@ fn frame_from_unit(rng: &mut Rng, d: &DriverCfg) -> [u8; 16] {
     match d.product.as_str() {
         "hcu" | "vcu" => {
             if rng.chance(1, 2) {
-                raw_of(make_id(6, 65288, 0, da), &[*rng.pick(&[0x14u8, 0x16]), 0xFF, rng.below(2) as u8, 0xFF, 1, 0, 0, 0])
+                // nominal, ident, and the two faulty states (the driver reports an error AND a lock signal)
+                raw_of(make_id(6, 65288, 0, da), &[*rng.pick(&[0x14u8, 0x16, 0x14, 0x16, 0xFA, 0xFB]), 0xFF, rng.below(2) as u8, 0xFF, 1, 0, 0, 0])
             } else {
                 raw_of(make_id(6, 60928, 0xFF, da), &[1, 2, 3, 4, 5, 6, 7, 8])
             }
@@ -33,10 +34,12 @@ fn frame_from_unit(rng: &mut Rng, d: &DriverCfg) -> [u8; 16] {
                 raw_of(make_id(6, 65262, 0, da), &[0x50, 0x60, 0xFF, 0xFF, 0xFF, 0xFF, 0xFF, 0xFF])
             }
         }
-        "inclinometer" => raw_of(make_id(6, 65451, 0, da), &[10, 0, 0xF6, 0xFF, 0xFA, 0, 0, 0]),
+        // sometimes with an error status / state word: a measurement is still published and the unit is alive
+        "inclinometer" => raw_of(make_id(6, 65451, 0, da), &[10, 0, 0xF6, 0xFF, 0xFA, 0, if rng.chance(1, 4) { *rng.pick(&[1u8, 2, 0x80, 0xFF]) } else { 0 }, 0]),
         "encoder" => {
             let p = (rng.below(6283) as u32).to_le_bytes();
-            raw_of(make_id(6, 65450, 0, da), &[p[0], p[1], p[2], p[3], 0, 0, 0, 0])
+            let st: [u8; 2] = if rng.chance(1, 4) { *rng.pick(&[[0x00u8, 0xEE], [0x01, 0xEE], [0x04, 0xEE], [0x02, 0xEE]]) } else { [0, 0] };
+            raw_of(make_id(6, 65450, 0, da), &[p[0], p[1], p[2], p[3], 0, 0, st[0], st[1]])
         }
         _ => raw_of(make_id(6, 60928, 0xFF, da), &[1, 2, 3, 4, 5, 6, 7, 8]),
     }
